@@ -11,7 +11,7 @@ pub fn meta() -> Meta {
     Meta {
         id: "C17",
         level: "exploration",
-        rule: "planted-SNP families through `ska build` + `ska lo` (CLI, one thread, hash seeds owned by the shim: 2 quick / 3 thorough): ancestors of length 10k+1 whose (k-1)-mers are unique on both strands; k in {7,9,15,21,31,33} (thorough: every odd k in 7..33); sites = every non-empty subset of the grid {3k, 5k, 7k+1} (spacing exactly 2k and 2k+1, margins 3k); allele assignments = every biallelic split for n=3,4,5 samples, every triallelic assignment for n=3 (thorough: n=4) and carrier patterns for n=6,10 (thorough: 8); sample orientations; without reference and (k>=15) with the ancestor as reference, the reference file laid out in one of four ways chosen per case (one line; lines of 60; lines of 70 with CRLF; header with description, lines of 50, no final newline); -m in {0, 0.1, 0.2}. Oracle without reference: the column multiset modulo whole-column complement equals the planted one. With reference (soundness): every VCF record lies at a planted site, REF is the ancestor base, every given genotype decodes to that sample's true base, pseudo-genomes have the ancestor's length and agree with each sample at every called position. Repeated-arms family (k in {9,15,21,31,33}): the same two arms around 2..4 different middle bases (every ambiguity code of 2..4 bases stored in every sample), a planted site inside the arm of each copy in turn plus a distant one. Well-formedness family outside the premise (SNP pairs at every distance 1..2k, SNP next to an indel, three alleles at adjacent sites, a sample lacking a region): equal sequence lengths, >= 2 distinct A/C/G/T per column, missing fraction <= m. Cases whose derived samples break (k-1)-mer uniqueness are trivial and not judged for completeness. Every 48th case is repeated through the dev-profile build of the CLI (arithmetic overflow checks on) and must get the same verdict.".into(),
+        rule: "planted-SNP families through `ska build` + `ska lo` (CLI, --threads 1..4 chosen per case, hash seeds owned by the shim: 2 quick / 3 thorough): ancestors of length 10k+1 whose (k-1)-mers are unique on both strands; k in {7,9,15,21,31,33} (thorough: every odd k in 7..33); sites = every non-empty subset of the grid {3k, 5k, 7k+1} (spacing exactly 2k and 2k+1, margins 3k); allele assignments = every biallelic split for n=3,4,5 samples, every triallelic assignment for n=3 (thorough: n=4) and carrier patterns for n=6,10 (thorough: 8); sample orientations; without reference and (k>=15) with the ancestor as reference, the reference file laid out in one of four ways chosen per case (one line; lines of 60; lines of 70 with CRLF; header with description, lines of 50, no final newline); -m in {0, 0.1, 0.2}. Oracle without reference: the column multiset modulo whole-column complement equals the planted one. With reference (soundness): every VCF record lies at a planted site, REF is the ancestor base, every given genotype decodes to that sample's true base, pseudo-genomes have the ancestor's length and agree with each sample at every called position. Repeated-arms family (k in {9,15,21,31,33}): the same two arms around 2..4 different middle bases (every ambiguity code of 2..4 bases stored in every sample), a planted site inside the arm of each copy in turn plus a distant one. Well-formedness family outside the premise (SNP pairs at every distance 1..2k, SNP next to an indel, three alleles at adjacent sites, a sample lacking a region): equal sequence lengths, >= 2 distinct A/C/G/T per column, missing fraction <= m. Cases whose derived samples break (k-1)-mer uniqueness are trivial and not judged for completeness. Every 48th case is repeated through the dev-profile build of the CLI (arithmetic overflow checks on) and must get the same verdict.".into(),
         assumptions: vec!["hash-seed space is a declared finite set (2/3 seeds); thread counts are C11's".into(), "release-profile arithmetic (DESIGN §2)".into()],
         exhaustive_when_uncapped: true,
     }
@@ -57,7 +57,9 @@ pub fn check(c: &SnpCase, with_ref: bool, m: &str, seed: u64, dir: &str) -> Resu
     // writes the same file
     let dress = (crate::explore::hash64(&(&c.sites, &c.alleles, seed)) % 4) as usize;
     lo::REF_DRESS.store(dress, std::sync::atomic::Ordering::Relaxed);
-    let o = lo::run_lo(dir, c.k, &samples, if with_ref { Some(&c.ancestor) } else { None }, &["-m", m], 1, Some(seed));
+    // thread count 1..4 derived from the case too (the brief's quantifier goes to 8; C11 sweeps 1..16)
+    let threads = 1 + (crate::explore::hash64(&(&c.alleles, &c.sites, c.k)) % 4) as usize;
+    let o = lo::run_lo(dir, c.k, &samples, if with_ref { Some(&c.ancestor) } else { None }, &["-m", m], threads, Some(seed));
     lo::REF_DRESS.store(0, std::sync::atomic::Ordering::Relaxed);
     let o = o?;
     let premise = c.premise();
